@@ -111,6 +111,31 @@ func emitAv1LebEdges(c *RNG, edges []int, emit func(op int, toks ...Tok)) {
 	}
 }
 
+// genLayeredOBUs: small OBUs that would all fit one packet, with extension headers over two or three
+// layer ids, extension-less OBUs and dropped ones (temporal delimiters, tile lists - with or without
+// an extension header of their own) in between: the "different layers never share a packet" rule
+// depends on what the payloader remembers across exactly such neighbours.
+func genLayeredOBUs(c *RNG) []av1OBU {
+	layers := [][2]int{{0, 0}, {1, 0}, {2, 1}, {1, 1}}
+	var os []av1OBU
+	for i, n := 0, 3+c.Intn(4); i < n; i++ {
+		o := av1OBU{typ: c.Pick(3, 4, 5, 6, 6, 7, 15), hasSize: true, payload: c.Bytes(1 + c.Intn(4))}
+		switch c.Intn(5) {
+		case 0:
+			o.typ = c.Pick(2, 8) // dropped by the payloader
+			o.payload = c.Bytes(c.Intn(3))
+		case 1:
+			o.typ = 5 // metadata, usually without extension header
+		}
+		if c.Intn(4) != 0 {
+			l := layers[c.Intn(len(layers))]
+			o.ext, o.tid, o.sid = true, l[0], l[1]
+		}
+		os = append(os, o)
+	}
+	return os
+}
+
 func genOBUs(c *RNG, mtu int) []av1OBU {
 	n := 1 + c.Intn(6)
 	sameLayer := c.Bool()
@@ -244,6 +269,15 @@ func init() {
 			o.Nontrivial = len(frags) >= 2
 			o.Tags = []string{"av1pay packets " + sizeBucket(len(frags))}
 			return o
+		case 1307: // nhist [payloads]: history then an intact frame (C15)
+			var ps [][]byte
+			for _, t := range tokList(toks[1]) {
+				ps = append(ps, tokBytes(t))
+			}
+			return runResync(registry["C13"].Run(1302, []Tok{toks[1]}), int(tokInt(toks[0])), ps, func() func([]byte) ([]byte, error) {
+				d := &codecs.AV1Depacketizer{}
+				return d.Unmarshal
+			})
 		case 1302:
 			d := &codecs.AV1Depacketizer{}
 			res := VList{}
@@ -387,6 +421,10 @@ func init() {
 				case 0, 1, 2:
 					mtu := c.Pick(2, 3, 4, 5, 8, 16, 40, 130, 2+c.Intn(40), 2+c.Intn(400), c.Intn(2))
 					os := genOBUs(c, mtu)
+					if c.Intn(4) == 0 {
+						mtu = c.Pick(40, 100, 1200)
+						os = genLayeredOBUs(c)
+					}
 					in := encodeOBUs(os)
 					pk := (&codecs.AV1Payloader{}).Payload(uint16(mtu), append([]byte{}, in...))
 					if mtu >= 2 {
